@@ -129,7 +129,8 @@ pub enum MetaVal {
 pub enum Directive {
     Withdrawal { from: usize, amount: Q, redeemer: bool },
     PlutusWitness { version: u8, script: Vec<u8>, script_param: Option<String> },
-    NativeWitness,
+    /// index into a small catalogue of native scripts (see `native_script`)
+    NativeWitness(u8),
     Donation(Q),
     VoteDeleg { drep: Vec<u8>, stake: usize },
     Publish { to: usize, amount: Q, version: Option<u8> },
@@ -524,9 +525,10 @@ impl Program {
                         None => format!("0x{}", hex::encode(script)),
                     }
                 )),
-                Directive::NativeWitness => s.push_str(
-                    "    cardano::native_witness {\n        script: 0x820181820400,\n    }\n",
-                ),
+                Directive::NativeWitness(k) => s.push_str(&format!(
+                    "    cardano::native_witness {{\n        script: 0x{},\n    }}\n",
+                    hex::encode(native_script(*k))
+                )),
                 Directive::Donation(q) => s.push_str(&format!(
                     "    cardano::treasury_donation {{\n        coin: {},\n    }}\n",
                     pq(q)
@@ -549,6 +551,30 @@ impl Program {
         }
         s.push_str("}\n");
         s
+    }
+}
+
+/// native scripts as CBOR: the usual shapes and legal corner cases (a threshold above the number of
+/// branches is unsatisfiable, not malformed)
+pub fn native_script(k: u8) -> Vec<u8> {
+    let sig = |b: u8| {
+        let mut v = vec![0x82, 0x00, 0x58, 0x1c];
+        v.extend(std::iter::repeat(b).take(28));
+        v
+    };
+    match k {
+        // all [ invalid_before 0 ]
+        0 => hex::decode("820181820400").unwrap(),
+        // atLeast 3 [sig a, sig b]
+        1 => [vec![0x83, 0x03, 0x03, 0x82], sig(0xAA), sig(0xBB)].concat(),
+        // atLeast 0 []
+        2 => vec![0x83, 0x03, 0x00, 0x80],
+        // any []
+        3 => vec![0x82, 0x02, 0x80],
+        // all [ atLeast 2 [sig a, sig b, sig c] ]
+        4 => [vec![0x82, 0x01, 0x81, 0x83, 0x03, 0x02, 0x83], sig(0xAA), sig(0xBB), sig(0xCC)].concat(),
+        // atLeast 2^32 [sig a]
+        _ => [vec![0x83, 0x03, 0x1a, 0xff, 0xff, 0xff, 0xff, 0x81], sig(0xAA)].concat(),
     }
 }
 
@@ -892,7 +918,7 @@ fn gen_tx(t: &mut Tape, cfg: &GenCfg, p: &mut Program, k: usize) -> TxSpec {
             }
         }
         if t.chance(1, 10) {
-            tx.directives.push(Directive::NativeWitness);
+            tx.directives.push(Directive::NativeWitness(t.draw(6) as u8));
         }
         if t.chance(wn, wd + 2) && p.parties.iter().all(|x| x.addr.len() == 57) {
             tx.directives.push(Directive::VoteDeleg {
